@@ -231,8 +231,10 @@ def gen_layer(rng):
         if r < 0.35:
             neg = [neg_resp(rng.sample([0x10, 0x11, 0x12, 0x13, 0x22, 0x31], rng.choice([1, 2, 3])))]
         elif r < 0.55:                                                   # NRC-CONST alternatives
-            vs = rng.sample([0x10, 0x11, 0x12, 0x13, 0x22, 0x31], 4)
-            neg = [neg_resp(vs[:2]), neg_resp(vs[2:] if rng.random() < 0.8 else vs[1:3])]
+            vs = rng.sample([0x10, 0x11, 0x12, 0x13, 0x22, 0x31], 6)
+            neg = [neg_resp(vs[:2]), neg_resp(vs[2:4] if rng.random() < 0.8 else vs[1:3])]
+            if rng.random() < 0.3:                                       # a third alternative (disjoint / overlapping)
+                neg.append(neg_resp(vs[4:] if rng.random() < 0.8 else vs[3:5]))
         services.append({"name": f"S{si}", "req": req, "pos": pos, "neg": neg})
     gnrs = []
     for _ in range(rng.choice([0, 0, 1, 1, 2])):
@@ -261,6 +263,46 @@ def resolve(desc, c):
             if not isinstance(x, str) and x["name"] == c:
                 return x
     raise KeyError(c)
+
+
+def desc_codings(desc):
+    """short name → description of every coding object of the layer"""
+    out = {}
+    for s in desc["services"]:
+        for c in [s["req"]] + s["pos"] + s["neg"]:
+            if not isinstance(c, str):
+                out[c["name"]] = c
+    for c in desc["gnrs"]:
+        out[c["name"]] = c
+    return out
+
+
+def desc_verdict(c, msg, strict):
+    """What decoding `msg` with the single coding object `c` has to do, read off the *description* alone
+    (independent of the implementation and of the Lean model): None = the parameters match, else the reason of
+    the first parameter which does not:
+      'too-short'   the parameter lies (partly) behind the end of the message            (both modes)
+      'nrc-const'   the byte(s) of an NRC-CONST are not one of its alternatives         (both modes)
+      'phys-const'  a PHYS-CONST has a different value                                   (strict mode only: the
+                    library reports this through odxraise, i.e. it is tolerated in non-strict mode just as a
+                    CODED-CONST mismatch is only a warning in both modes; the leading constants are what the
+                    constant-prefix filters of the dispatcher look at)
+    Parameters follow each other without gaps (no explicit positions), integers are big endian."""
+    pos = 0
+    for p in c["params"]:
+        k = p["k"]
+        n = p["len"] if k == "mr" else p["bl"] // 8
+        if n == 0:
+            continue
+        if pos + n > len(msg):
+            return "too-short"
+        v = int.from_bytes(msg[pos:pos + n], "big")
+        if k == "nrc" and v not in p["vals"]:
+            return "nrc-const"
+        if k == "pc" and strict and v != p["v"]:
+            return "phys-const"
+        pos += n
+    return None
 
 
 # ---------------------------------------------------------------- the loaded layer as seen by the model
@@ -314,6 +356,9 @@ class View:
         if any(co is g for g in self.gnrs):
             return "gnr"
         return "own"
+
+    def is_request(self, n):
+        return any(s.request is self.cobj[n] for s in self.services)
 
     def coding_sexp(self, n, outcome):
         return f"(co {n} {outcome} {self.pdesc[n]})"
